@@ -579,6 +579,11 @@ theorem exec_exitOK (h : Handlers) (kill : Bool) : ∀ (p : Prog) (d : Nat) (l :
     simp only [exec]
     generalize (closeBlock h (exec h kill p [])).1 = y
     cases y <;> trivial
+  | retCall p ih =>
+    intro d l pend _
+    simp only [exec]
+    generalize (closeBlock h (exec h kill p [])).1 = y
+    cases y <;> trivial
 
 def notKill (x : Exit) : Prop := ∀ s, x ≠ .kill s
 
@@ -673,6 +678,19 @@ theorem exec_notKill (h : Handlers) (kill : Bool) : ∀ (p : Prog) (pend : List 
     | ret => intro s hh; cases hh
     | err e => intro s hh; cases hh
   | call p ih =>
+    intro pend hk
+    have h1 := withErr_notKill (ih [] (by simpa [noYield] using hk))
+      (closeAll h (exec h kill p []).pend (exec h kill p []).exit.errArg).1
+    simp only [exec, closeBlock]
+    generalize (exec h kill p []).exit.withErr _ = y at h1 ⊢
+    cases y with
+    | kill e => exact absurd rfl (h1 e)
+    | normal => intro s hh; cases hh
+    | brk => intro s hh; cases hh
+    | goto k => intro s hh; cases hh
+    | ret => intro s hh; cases hh
+    | err e => intro s hh; cases hh
+  | retCall p ih =>
     intro pend hk
     have h1 := withErr_notKill (ih [] (by simpa [noYield] using hk))
       (closeAll h (exec h kill p []).pend (exec h kill p []).exit.errArg).1
@@ -916,25 +934,6 @@ theorem rel_of_abort (h : Handlers) (outs : Outs) (below : List TV) (r : Res) (v
   obtain ⟨x, pend, l⟩ := r
   cases x <;> first | exact ha | simp [isAbort] at hx
 
-theorem noYieldInPcall_of_noYield : ∀ (p : Prog), noYield p = true → noYieldInPcall p = true := by
-  intro p
-  induction p with
-  | seq a b iha ihb =>
-    intro hh; simp only [noYield, Bool.and_eq_true] at hh
-    simp only [noYieldInPcall, Bool.and_eq_true]; exact ⟨iha hh.1, ihb hh.2⟩
-  | block p ih => intro hh; exact ih hh
-  | loop n p ih => intro hh; exact ih hh
-  | pcall p ih => intro hh; exact hh
-  | call p ih => intro hh; exact ih hh
-  | skip => intro _; rfl
-  | tbc v => intro _; rfl
-  | mark n => intro _; rfl
-  | brk => intro _; rfl
-  | gotoOut k => intro _; rfl
-  | ret => intro _; rfl
-  | err e => intro _; rfl
-  | yield => intro _; rfl
-
 theorem exec_block_eq (h : Handlers) (kill : Bool) (p : Prog) (pend : List TV) :
     exec h kill (.block p) pend =
       ⟨(closeBlock h (exec h kill p [])).1.leaveBlock, pend, (closeBlock h (exec h kill p [])).2⟩ := rfl
@@ -953,27 +952,79 @@ theorem exec_pcall_eq (h : Handlers) (kill : Bool) (p : Prog) (pend : List TV) :
        | .kill e => ⟨.kill e, pend, (closeBlock h (exec h kill p [])).2⟩
        | x => ⟨.normal, pend, (closeBlock h (exec h kill p [])).2 ++ [.caught x.errArg]⟩) := rfl
 
+/-- a called function, given the statement for its body -/
+theorem call_step (h : Handlers) (kill : Bool) (p : Prog)
+    (ih : ∀ (pend : List TV) (outs : Outs) (below : List TV),
+      wf p outs.length (outs.any (·.1)) = true →
+      Rel h outs below (exec h kill p pend)
+        (dexec h kill p (envOf outs below.length) below.length (pend ++ restOf outs ++ below)))
+    (pend : List TV) (outs : Outs) (below : List TV) (hw : wf (.call p) outs.length (outs.any (·.1)) = true) :
+    Rel h outs below (exec h kill (.call p) pend)
+      (dexec h kill (.call p) (envOf outs below.length) below.length (pend ++ restOf outs ++ below)) := by
+  have hwf : wf p 0 false = true := by simpa [wf] using hw
+  have hi := ih [] [] (pend ++ restOf outs ++ below) (by simpa using hwf)
+  simp only [envOf, restOf_nil, List.nil_append] at hi
+  obtain ⟨f1, f2⟩ := fn_step h (pend ++ restOf outs ++ below) _ _ hi (exec_exitOK h kill p 0 false [] hwf)
+  rw [exec_call_eq, dexec_call]
+  cases hab : isAbort (exec h kill p []).exit with
+  | false =>
+    obtain ⟨y, hy, hc⟩ := f1 hab
+    rw [hy]
+    rcases hc with ⟨rfl, hc⟩ | ⟨e, rfl, hc⟩
+    · rcases hc with hc | hc <;> (rw [hc]; simp only [Exit.leaveFunction, Rel])
+    · rw [hc]
+      simp only [Exit.leaveFunction, Rel]
+      exact abortRel_same h outs below (.err e) rfl pend _
+  | true =>
+    obtain ⟨hv, RV, hst, habv, e1, e2⟩ := f2 hab
+    rw [hv]
+    simp only [restOf_nil, List.append_nil] at e1 e2
+    have hc1 : (closeBlock h (exec h kill p [])).1 =
+        (exec h kill p []).exit.withErr (closeAll h (exec h kill p []).pend (exec h kill p []).exit.errArg).1 := rfl
+    have hc2 : (closeBlock h (exec h kill p [])).2 =
+        (exec h kill p []).log ++ (closeAll h (exec h kill p []).pend (exec h kill p []).exit.errArg).2 := rfl
+    rw [hc1, hc2, e1, e2]
+    generalize dexec h kill p [] (pend ++ restOf outs ++ below).length (pend ++ restOf outs ++ below) = vi
+      at hst habv ⊢
+    obtain ⟨a1, a2, a3, _⟩ := abort_withErr h vi.exit habv RV (pend ++ restOf outs)
+    have hlf : (vi.exit.withErr (closeAll h RV vi.exit.errArg).1).leaveFunction =
+        vi.exit.withErr (closeAll h RV vi.exit.errArg).1 := by
+      generalize vi.exit.withErr (closeAll h RV vi.exit.errArg).1 = z at a3
+      cases z <;> first | rfl | simp [isAbort] at a3
+    have hlf2 : vi.exit.leaveFunction = vi.exit := by
+      generalize vi.exit = z at habv
+      cases z <;> first | rfl | simp [isAbort] at habv
+    rw [hlf, hlf2]
+    apply rel_of_abort h outs below _ _ a3
+    refine ⟨RV ++ (pend ++ restOf outs), by rw [hst]; simp [List.append_assoc], habv, ?_, ?_⟩
+    · simp only
+      rw [a1, a2, closeAll_append h RV (pend ++ restOf outs)]
+    · simp only
+      rw [a1, closeAll_append h RV (pend ++ restOf outs)]
+      simp [List.append_assoc]
+
+
 theorem dexec_spec (h : Handlers) (kill : Bool) : ∀ (p : Prog) (pend : List TV) (outs : Outs) (below : List TV),
-    wf p outs.length (outs.any (·.1)) = true → (kill = false ∨ noYieldInPcall p = true) →
+    wf p outs.length (outs.any (·.1)) = true →
     Rel h outs below (exec h kill p pend)
       (dexec h kill p (envOf outs below.length) below.length (pend ++ restOf outs ++ below)) := by
   intro p
   induction p with
-  | skip => intro pend outs below _ _; simp only [exec, dexec, Rel]
-  | mark n => intro pend outs below _ _; simp only [exec, dexec, Rel]
+  | skip => intro pend outs below _; simp only [exec, dexec, Rel]
+  | mark n => intro pend outs below _; simp only [exec, dexec, Rel]
   | err e =>
-    intro pend outs below _ _
+    intro pend outs below _
     simp only [exec, dexec, Rel]
     exact abortRel_same h outs below (.err (.user e)) rfl pend []
   | yield =>
-    intro pend outs below _ _
+    intro pend outs below _
     cases kill with
     | false => simp only [exec, dexec, Rel]; rfl
     | true =>
       simp only [exec, dexec, Rel, if_true]
       exact abortRel_same h outs below (.kill none) rfl pend []
   | tbc v =>
-    intro pend outs below _ _
+    intro pend outs below _
     cases v with
     | bad =>
       simp only [exec, dexec, Rel]
@@ -981,14 +1032,14 @@ theorem dexec_spec (h : Handlers) (kill : Bool) : ∀ (p : Prog) (pend : List TV
     | obj id => simp only [exec, dexec, Rel, List.cons_append]
     | nilv => simp only [exec, dexec, Rel, List.cons_append]
   | ret =>
-    intro pend outs below _ _
+    intro pend outs below _
     simp only [exec, dexec, Rel]
     have hs : pend ++ restOf outs ++ below = (pend ++ restOf outs) ++ below := rfl
     unfold jumpTo
     rw [hs, cleanup_closeAll]
     simp
   | brk =>
-    intro pend outs below hw _
+    intro pend outs below hw
     simp only [wf] at hw
     obtain ⟨m, hm⟩ := firstLoop_some_of_any hw
     simp only [exec, dexec, Rel, brkHeight_envOf, hm, Option.map_some]
@@ -997,7 +1048,7 @@ theorem dexec_spec (h : Handlers) (kill : Bool) : ∀ (p : Prog) (pend : List TV
     rw [jumpTo_closeAll]
     simp
   | gotoOut g =>
-    intro pend outs below hw _
+    intro pend outs below hw
     simp only [wf, decide_eq_true_eq] at hw
     simp only [exec, dexec, Rel, gotoHeight_envOf outs below.length g hw]
     refine ⟨hw, ?_⟩
@@ -1005,17 +1056,9 @@ theorem dexec_spec (h : Handlers) (kill : Bool) : ∀ (p : Prog) (pend : List TV
     rw [jumpTo_closeAll]
     simp
   | seq a b iha ihb =>
-    intro pend outs below hw hk
+    intro pend outs below hw
     simp only [wf, Bool.and_eq_true] at hw
-    have hka : kill = false ∨ noYieldInPcall a = true := by
-      rcases hk with hk | hk
-      · exact Or.inl hk
-      · simp only [noYieldInPcall, Bool.and_eq_true] at hk; exact Or.inr hk.1
-    have hkb : kill = false ∨ noYieldInPcall b = true := by
-      rcases hk with hk | hk
-      · exact Or.inl hk
-      · simp only [noYieldInPcall, Bool.and_eq_true] at hk; exact Or.inr hk.2
-    have ha := iha pend outs below hw.1 hka
+    have ha := iha pend outs below hw.1
     simp only [exec, dexec]
     generalize hra : exec h kill a pend = ra at ha
     generalize hva : dexec h kill a (envOf outs below.length) below.length (pend ++ restOf outs ++ below) = va at ha
@@ -1025,7 +1068,7 @@ theorem dexec_spec (h : Handlers) (kill : Bool) : ∀ (p : Prog) (pend : List TV
       simp only [Rel] at ha
       subst ha
       simp only
-      have hb := ihb pa outs below hw.2 hkb
+      have hb := ihb pa outs below hw.2
       generalize exec h kill b pa = rb at hb
       generalize dexec h kill b (envOf outs below.length) below.length (pa ++ restOf outs ++ below) = vb at hb
       obtain ⟨xb, pb, lb⟩ := rb
@@ -1052,8 +1095,8 @@ theorem dexec_spec (h : Handlers) (kill : Bool) : ∀ (p : Prog) (pend : List TV
       obtain ⟨y, sy, ly⟩ := va
       cases y <;> first | exact ha | exact absurd rfl this
   | block p ih =>
-    intro pend outs below hw hk
-    have hi := ih [] ((false, pend) :: outs) below (by simpa [wf] using hw) (by simpa [noYieldInPcall] using hk)
+    intro pend outs below hw
+    have hi := ih [] ((false, pend) :: outs) below (by simpa [wf] using hw)
     rw [envOf_cons_len, restOf_cons] at hi
     simp only [List.nil_append] at hi
     obtain ⟨b1, b2⟩ := block_step h false pend outs below _ _ hi
@@ -1075,8 +1118,8 @@ theorem dexec_spec (h : Handlers) (kill : Bool) : ∀ (p : Prog) (pend : List TV
       | kill e => simp [landsHere] at hl
     | false => exact b2 hl
   | loop n p ih =>
-    intro pend outs below hw hk
-    have hi := ih [] ((true, pend) :: outs) below (by simpa [wf] using hw) (by simpa [noYieldInPcall] using hk)
+    intro pend outs below hw
+    have hi := ih [] ((true, pend) :: outs) below (by simpa [wf] using hw)
     rw [envOf_cons_len, restOf_cons] at hi
     simp only [List.nil_append] at hi
     obtain ⟨b1, b2⟩ := block_step h true pend outs below _ _ hi
@@ -1085,16 +1128,10 @@ theorem dexec_spec (h : Handlers) (kill : Bool) : ∀ (p : Prog) (pend : List TV
       (fun st => endBlock h (dexec h kill p ((true, st.length) :: envOf outs below.length) below.length st) st.length)
       b1 b2 n
   | pcall p ih =>
-    intro pend outs below hw hk
-    have hk1 : kill = false ∨ noYield p = true := by simpa [noYieldInPcall] using hk
-    have hk2 : kill = false ∨ noYieldInPcall p = true := by
-      rcases hk1 with hh | hh
-      · exact Or.inl hh
-      · exact Or.inr (noYieldInPcall_of_noYield p hh)
+    intro pend outs below hw
     have hwf : wf p 0 false = true := by simpa [wf] using hw
-    have hi := ih [] [] (pend ++ restOf outs ++ below) (by simpa using hwf) hk2
+    have hi := ih [] [] (pend ++ restOf outs ++ below) (by simpa using hwf)
     simp only [envOf, restOf_nil, List.nil_append] at hi
-    have hnk := exec_notKill h kill p [] hk1
     obtain ⟨f1, f2⟩ := fn_step h (pend ++ restOf outs ++ below) _ _ hi (exec_exitOK h kill p 0 false [] hwf)
     rw [exec_pcall_eq, dexec_pcall]
     cases hab : isAbort (exec h kill p []).exit with
@@ -1112,55 +1149,6 @@ theorem dexec_spec (h : Handlers) (kill : Bool) : ∀ (p : Prog) (pend : List TV
       obtain ⟨hv, RV, hst, habv, e1, e2⟩ := f2 hab
       rw [hv]
       simp only [restOf_nil, List.append_nil] at e1 e2
-      generalize hri : exec h kill p [] = ri at hab hnk e1 e2 ⊢
-      obtain ⟨x, pi, li⟩ := ri
-      generalize dexec h kill p [] (pend ++ restOf outs ++ below).length (pend ++ restOf outs ++ below) = vi
-        at hst habv e1 e2 ⊢
-      obtain ⟨y, sy, ly⟩ := vi
-      simp only at hst e1 e2 hab hnk habv
-      subst hst
-      cases x with
-      | kill s => exact absurd rfl (hnk s)
-      | normal => simp [isAbort] at hab
-      | brk => simp [isAbort] at hab
-      | goto g => simp [isAbort] at hab
-      | ret => simp [isAbort] at hab
-      | err e0 =>
-        obtain ⟨e', he'⟩ := closeAll_some h pi e0
-        simp only [Exit.errArg, he', Exit.withErr] at e1 e2
-        cases y with
-        | err ey =>
-          obtain ⟨e'', he''⟩ := closeAll_some h RV ey
-          simp only [Exit.errArg, he'', Exit.withErr, Exit.err.injEq] at e1 e2
-          subst e1
-          simp only [closeBlock, Exit.errArg, he', Exit.withErr, pcallEnd, cleanup_closeAll, he'', Rel]
-          rw [e2]
-        | kill s => simp [Exit.withErr] at e1
-        | normal => simp [isAbort] at habv
-        | brk => simp [isAbort] at habv
-        | goto g => simp [isAbort] at habv
-        | ret => simp [isAbort] at habv
-  | call p ih =>
-    intro pend outs below hw hk
-    have hk2 : kill = false ∨ noYieldInPcall p = true := by simpa [noYieldInPcall] using hk
-    have hwf : wf p 0 false = true := by simpa [wf] using hw
-    have hi := ih [] [] (pend ++ restOf outs ++ below) (by simpa using hwf) hk2
-    simp only [envOf, restOf_nil, List.nil_append] at hi
-    obtain ⟨f1, f2⟩ := fn_step h (pend ++ restOf outs ++ below) _ _ hi (exec_exitOK h kill p 0 false [] hwf)
-    rw [exec_call_eq, dexec_call]
-    cases hab : isAbort (exec h kill p []).exit with
-    | false =>
-      obtain ⟨y, hy, hc⟩ := f1 hab
-      rw [hy]
-      rcases hc with ⟨rfl, hc⟩ | ⟨e, rfl, hc⟩
-      · rcases hc with hc | hc <;> (rw [hc]; simp only [Exit.leaveFunction, Rel])
-      · rw [hc]
-        simp only [Exit.leaveFunction, Rel]
-        exact abortRel_same h outs below (.err e) rfl pend _
-    | true =>
-      obtain ⟨hv, RV, hst, habv, e1, e2⟩ := f2 hab
-      rw [hv]
-      simp only [restOf_nil, List.append_nil] at e1 e2
       have hc1 : (closeBlock h (exec h kill p [])).1 =
           (exec h kill p []).exit.withErr (closeAll h (exec h kill p []).pend (exec h kill p []).exit.errArg).1 := rfl
       have hc2 : (closeBlock h (exec h kill p [])).2 =
@@ -1168,21 +1156,94 @@ theorem dexec_spec (h : Handlers) (kill : Bool) : ∀ (p : Prog) (pend : List TV
       rw [hc1, hc2, e1, e2]
       generalize dexec h kill p [] (pend ++ restOf outs ++ below).length (pend ++ restOf outs ++ below) = vi
         at hst habv ⊢
-      obtain ⟨a1, a2, a3, _⟩ := abort_withErr h vi.exit habv RV (pend ++ restOf outs)
-      have hlf : (vi.exit.withErr (closeAll h RV vi.exit.errArg).1).leaveFunction =
-          vi.exit.withErr (closeAll h RV vi.exit.errArg).1 := by
-        generalize vi.exit.withErr (closeAll h RV vi.exit.errArg).1 = z at a3
-        cases z <;> first | rfl | simp [isAbort] at a3
-      have hlf2 : vi.exit.leaveFunction = vi.exit := by
-        generalize vi.exit = z at habv
-        cases z <;> first | rfl | simp [isAbort] at habv
-      rw [hlf, hlf2]
-      apply rel_of_abort h outs below _ _ a3
-      refine ⟨RV ++ (pend ++ restOf outs), by rw [hst]; simp [List.append_assoc], habv, ?_, ?_⟩
-      · simp only
-        rw [a1, a2, closeAll_append h RV (pend ++ restOf outs)]
-      · simp only
-        rw [a1, closeAll_append h RV (pend ++ restOf outs)]
-        simp [List.append_assoc]
+      obtain ⟨y, sy, ly⟩ := vi
+      simp only at hst habv ⊢
+      subst hst
+      cases y with
+      | normal => simp [isAbort] at habv
+      | brk => simp [isAbort] at habv
+      | goto g => simp [isAbort] at habv
+      | ret => simp [isAbort] at habv
+      | err ey =>
+        -- an error reaches the protected call: CallContext cleans the close stack up and pcall returns false, e
+        obtain ⟨e'', he''⟩ := closeAll_some h RV ey
+        simp only [Exit.errArg, he'', Exit.withErr, pcallEnd, cleanup_closeAll, Rel]
+      | kill sy =>
+        -- the coroutine is being closed: nothing is caught, nothing is closed here
+        obtain ⟨a1, a2, a3, _⟩ := abort_withErr h (.kill sy) rfl RV (pend ++ restOf outs)
+        simp only [Exit.errArg, Exit.withErr, pcallEnd, Rel]
+        refine ⟨RV ++ (pend ++ restOf outs), by simp [List.append_assoc], rfl, ?_, ?_⟩
+        · simp only [Exit.errArg, Exit.withErr]
+          rw [closeAll_append h RV (pend ++ restOf outs)]
+        · simp only [Exit.errArg]
+          rw [closeAll_append h RV (pend ++ restOf outs)]
+          simp [List.append_assoc]
+  | call p ih =>
+    intro pend outs below hw
+    exact call_step h kill p ih pend outs below hw
+  | retCall p ih =>
+    intro pend outs below hw
+    have hc := call_step h kill p ih pend outs below (by simpa [wf] using hw)
+    have hcx : (exec h kill (.call p) pend).exit = .normal ∨ isAbort (exec h kill (.call p) pend).exit = true := by
+      rw [exec_call_eq]
+      simp only
+      generalize (closeBlock h (exec h kill p [])).1 = y
+      cases y <;> simp [Exit.leaveFunction, isAbort]
+    -- `return f()` = the call, then (if it came back normally) the return
+    have hs : exec h kill (.retCall p) pend =
+        ⟨(exec h kill (.call p) pend).exit.thenReturn, pend, (exec h kill (.call p) pend).log⟩ := rfl
+    have hd : dexec h kill (.retCall p) (envOf outs below.length) below.length (pend ++ restOf outs ++ below) =
+        (let vc := dexec h kill (.call p) (envOf outs below.length) below.length (pend ++ restOf outs ++ below)
+         match vc.exit with
+         | .normal =>
+           let j := jumpTo h vc.stack below.length .ret
+           ⟨j.exit, j.stack, vc.log ++ j.log⟩
+         | x => ⟨x, vc.stack, vc.log⟩) := rfl
+    rw [hs, hd]
+    have hpe : (exec h kill (.call p) pend).pend = pend := rfl
+    generalize exec h kill (.call p) pend = rc at hc hpe hcx
+    generalize dexec h kill (.call p) (envOf outs below.length) below.length (pend ++ restOf outs ++ below) = vc at hc
+    obtain ⟨x, pc, lc⟩ := rc
+    simp only at hpe
+    subst hpe
+    -- the exit of a call is normal or an abort
+    cases x with
+    | normal =>
+      simp only [Rel] at hc
+      subst hc
+      simp only [Exit.thenReturn, Rel]
+      have hst : pc ++ restOf outs ++ below = (pc ++ restOf outs) ++ below := rfl
+      unfold jumpTo
+      rw [hst, cleanup_closeAll]
+    | err e =>
+      have hab : AbortRel h outs below ⟨.err e, pc, lc⟩ vc := hc
+      obtain ⟨RV, h1, h2, h3, h4⟩ := hab
+      have hvx : vc = ⟨vc.exit, vc.stack, vc.log⟩ := rfl
+      have hne := ne_normal_of_abort h2
+      simp only [Exit.thenReturn]
+      obtain ⟨y, sy, ly⟩ := vc
+      cases y with
+      | normal => exact absurd rfl hne
+      | err ey => exact ⟨RV, h1, h2, h3, h4⟩
+      | kill sk => exact ⟨RV, h1, h2, h3, h4⟩
+      | brk => simp [isAbort] at h2
+      | goto g => simp [isAbort] at h2
+      | ret => simp [isAbort] at h2
+    | kill s =>
+      have hab : AbortRel h outs below ⟨.kill s, pc, lc⟩ vc := hc
+      obtain ⟨RV, h1, h2, h3, h4⟩ := hab
+      have hne := ne_normal_of_abort h2
+      simp only [Exit.thenReturn]
+      obtain ⟨y, sy, ly⟩ := vc
+      cases y with
+      | normal => exact absurd rfl hne
+      | err ey => exact ⟨RV, h1, h2, h3, h4⟩
+      | kill sk => exact ⟨RV, h1, h2, h3, h4⟩
+      | brk => simp [isAbort] at h2
+      | goto g => simp [isAbort] at h2
+      | ret => simp [isAbort] at h2
+    | brk => simp [isAbort] at hcx
+    | goto g => simp [isAbort] at hcx
+    | ret => simp [isAbort] at hcx
 
 end GoluaVerif.Proofs.Tbc
